@@ -9,7 +9,7 @@ SITE = "/verif/harness/site"
 
 def env_for(trace=None, delays=None):
     env = dict(os.environ)
-    env["PYTHONPATH"] = "/repo/src:" + SITE + ":/verif"
+    env["PYTHONPATH"] = os.environ.get("VERIF_REPO", "/repo") + "/src:" + SITE + ":/verif"
     env["PYTHONHASHSEED"] = "0"
     env["SQLFLUFF_VERIF"] = "1"
     env.pop("SQLFLUFF_VERIF_TRACE", None)
